@@ -78,7 +78,9 @@ func (c *FnCtx) ghostIntrinsic(fr *Frame, st *State, fn *ssa.Function, args []*T
 	case "verifBuf": // content of a *bytes.Buffer / *strings.Builder
 		return []*Term{c.gget(st, "G:buf", args[0])}, true
 	case "verifRdPos": // number of bytes consumed from reader so far
-		return []*Term{c.gget(st, "G:rdpos", c.ioID(args[0]))}, true
+		pos := c.gget(st, "G:rdpos", c.ioID(args[0]))
+		c.addFactT(st, pos, ts.And(ts.Le(ts.Int(0), pos), ts.Le(pos, ts.Len(ts.UF("rddata", SString, c.ioID(args[0]))))))
+		return []*Term{pos}, true
 	case "verifRdData": // the whole byte stream the reader will ever deliver
 		return []*Term{ts.UF("rddata", SString, c.ioID(args[0]))}, true
 	case "verifRdEOF":
